@@ -87,6 +87,9 @@ def prepare(vobject_items: List[vobject.base.Component], path: str,
                     for component in components:
                         vobject_collection.add(component)
                     vobject_collection.add(vobject.base.ContentLine("PRODID", [], PRODID))
+                    # The components sharing a UID must form a valid object
+                    radicale_item.check_and_sanitize_items(
+                        [vobject_collection], tag=tag)
                     item = radicale_item.Item(collection_path=collection_path,
                                               vobject_item=vobject_collection)
                     item.prepare()
